@@ -324,6 +324,9 @@ func (w *World) openTunnel(m map[string]string) {
 		if adv {
 			eff.Set("grpctunnel-negotiate", "on")
 		}
+		if w.cfg.Mode == "fwd" {
+			eff.Set("x-stub", "1")
+		}
 		pa := m["peer"]
 		if pa == "" {
 			pa = "peer-0"
@@ -540,12 +543,65 @@ func (w *World) cnew(m map[string]string) {
 				tm = encMD(tmd)
 			}
 			extra += fmt.Sprintf(" ctxtc=%d ctxtmd=%s", w.tunnelOfChannel(tc), tm)
+			scribble(tmd)
 		}
 		w.logf("ret who=cw%d op=new res=%s%s", r, encErr(err), extra)
 	})
 	if !ok {
 		w.logf("skip busy who=cw%d", r)
 	}
+}
+
+// cinvoke performs a whole unary call through Invoke (what generated stubs do)
+func (w *World) cinvoke(m map[string]string) {
+	r := atoi(m["r"])
+	t := atoi(m["t"])
+	rs := &rpcState{r: r, tunnel: t, shape: "U", invoke: true}
+	rs.cw = newActor(fmt.Sprintf("cw%d", r))
+	rs.cr = newActor(fmt.Sprintf("cr%d", r))
+	w.rpcs[r] = rs
+	ctx := context.Background()
+	mdEnc := "-"
+	if md := m["md"]; md != "" && md != "-" {
+		ctx = metadata.NewOutgoingContext(ctx, decMD(md))
+		mdEnc = md
+	}
+	ctx, rs.cancel = context.WithCancel(ctx)
+	name := methodName("U", r, m)
+	var trl metadata.MD
+	w.logf("newcall r=%d t=%d shape=U method=%s md=%s credmd=- to=none multi=0", r, t, encStr(name), mdEnc)
+	cc := w.channelFor(t, m["via"])
+	if cc == nil {
+		w.logf("ret who=cw%d op=new res=err:nochannel", r)
+		return
+	}
+	pl := payloadFor(r, 'c', 0, atoi(m["size"]))
+	req := &Msg{Value: pl}
+	w.logf("call who=cw%d op=new", r)
+	w.logf("call who=cw%d op=send idx=0 ser=%d len=%d dg=%x", r, proto.Size(req), len(pl), digest(pl))
+	w.logf("call who=cr%d op=recv", r)
+	rs.cw.do(func() {
+		defer func() {
+			if p := recover(); p != nil {
+				w.logf("PANIC who=cw%d op=invoke %v", r, p)
+			}
+		}()
+		resp := new(Msg)
+		err := cc.Invoke(ctx, name, req, resp, grpc.Trailer(&trl))
+		w.setFlag(fmt.Sprintf("cterm%d", r))
+		if err == nil {
+			w.logf("ret who=cw%d op=send idx=0 res=ok", r)
+			w.logf("ret who=cr%d op=recv res=ok len=%d dg=%x", r, len(resp.Value), digest(resp.Value))
+			w.logf("call who=cr%d op=recv", r)
+			w.logf("ret who=cr%d op=recv res=EOF trl=%s trlopt=%s", r, encMD(trl), encMD(trl))
+		} else {
+			if !rs.started {
+				w.logf("ret who=cw%d op=new res=%s", r, encErr(err))
+			}
+			w.logf("ret who=cw%d op=send idx=0 res=%s", r, map[bool]string{true: "ok", false: encErr(err)}[rs.started])
+			w.logf("ret who=cr%d op=recv res=%s trl=%s trlopt=%s", r, encErr(err), encMD(trl), encMD(trl))
+		}
+	})
 }
 
 func (w *World) clientOp(op string, m map[string]string) {
@@ -642,6 +698,22 @@ func (w *World) clientOp(op string, m map[string]string) {
 		w.setFlag(fmt.Sprintf("cterm%d", r))
 		rs.cancel()
 		w.logf("ret who=cx%d op=cancel res=ok", r)
+	}
+}
+
+// scribble mutates metadata obtained from an accessor in every way a caller could: in place
+// inside the value slices, by appending, by adding and by deleting keys. Nobody else may notice.
+func scribble(md metadata.MD) {
+	for k, v := range md {
+		for i := range v {
+			v[i] = "SCRIBBLED"
+		}
+		md[k] = append(v, "more")
+	}
+	md["scribble"] = []string{"x"}
+	for k := range md {
+		delete(md, k)
+		break
 	}
 }
 
@@ -874,6 +946,8 @@ func (w *World) Do(line string) {
 		w.cnew(m)
 	case "csend", "cclose", "crecv", "chdr", "ctrl", "ccancel":
 		w.clientOp(op, m)
+	case "cinvoke":
+		w.cinvoke(m)
 	case "hrecv", "hsend", "hsethdr", "hsendhdr", "hsettrl", "hret", "hctx":
 		w.handlerOp(op, m)
 	case "dc", "ds":
